@@ -1207,3 +1207,79 @@ mod tests {
         }
     }
 }
+
+/// Verification hook: a connected pair of [`Substream`]s of the TCP or WebSocket substream type
+/// over an in-memory yamux connection.
+#[cfg(feature = "verif")]
+pub struct VerifYamuxPair {
+    /// Opening side.
+    pub dialer: Substream,
+    /// Accepting side; yamux announces a stream with its first frame, so this resolves once the
+    /// dialer has written something.
+    pub listener: tokio::sync::oneshot::Receiver<Substream>,
+    _control: crate::yamux::Control,
+}
+
+#[cfg(feature = "verif")]
+impl VerifYamuxPair {
+    /// Build the pair: `websocket` selects `SubstreamType::WebSocket` (needs the `websocket`
+    /// feature, otherwise TCP is used), `pipe` is the capacity of the in-memory byte pipe under
+    /// yamux. Two tasks driving the yamux connections are spawned on the current tokio runtime.
+    pub async fn new(websocket: bool, codec: ProtocolCodec, pipe: usize) -> Option<Self> {
+        use futures::StreamExt;
+        use tokio_util::compat::{FuturesAsyncReadCompatExt, TokioAsyncReadCompatExt};
+
+        fn wrap(
+            websocket: bool,
+            stream: crate::yamux::Stream,
+            codec: ProtocolCodec,
+            id: usize,
+        ) -> Substream {
+            let peer = PeerId::random();
+            let id = SubstreamId::from(id);
+            let io = stream.compat();
+            #[cfg(feature = "websocket")]
+            if websocket {
+                return Substream::new_websocket(
+                    peer,
+                    id,
+                    websocket::Substream::new(io, crate::BandwidthSink::new(), None),
+                    codec,
+                );
+            }
+            let _ = websocket;
+            Substream::new_tcp(
+                peer,
+                id,
+                tcp::Substream::new(io, crate::BandwidthSink::new(), None),
+                codec,
+            )
+        }
+
+        let (a, b) = tokio::io::duplex(pipe);
+        let (mut control, mut dialer_connection) = crate::yamux::Control::new(
+            crate::yamux::Connection::new(a.compat(), Default::default(), crate::yamux::Mode::Client),
+        );
+        let (listener_control, mut listener_connection) = crate::yamux::Control::new(
+            crate::yamux::Connection::new(b.compat(), Default::default(), crate::yamux::Mode::Server),
+        );
+        let (tx, listener) = tokio::sync::oneshot::channel();
+        tokio::spawn(async move { while dialer_connection.next().await.is_some() {} });
+        tokio::spawn(async move {
+            let _keep = listener_control;
+            let mut tx = Some(tx);
+            while let Some(stream) = listener_connection.next().await {
+                if let (Ok(stream), Some(tx)) = (stream, tx.take()) {
+                    let _ = tx.send(wrap(websocket, stream, codec, 2));
+                }
+            }
+        });
+        let stream = control.open_stream().await.ok()?;
+
+        Some(Self {
+            dialer: wrap(websocket, stream, codec, 1),
+            listener,
+            _control: control,
+        })
+    }
+}
